@@ -2,6 +2,8 @@ package harness
 
 import (
 	"bufio"
+	"bytes"
+	"strings"
 	"encoding/json"
 	"fmt"
 	"math/rand"
@@ -74,15 +76,32 @@ func TestRun(t *testing.T) {
 		r := rand.New(rand.NewSource(seed*1000003 + int64(i)))
 		c := GenConfig(r, profile)
 		id := fmt.Sprintf("%s-%d-%d", profile, seed, i)
-		w := NewWorld(t, out, c, id)
 		h := History{ID: id, Config: c}
-		for b := 0; b < c.Blocks && !w.Halted; b++ {
-			for _, a := range w.GenBlock(r, c) {
-				h.Actions = append(h.Actions, a)
-				w.Exec(a)
+		if profile == "determinism" {
+			h = runDeterminism(t, out, r, c, id)
+		} else {
+			w := NewWorld(t, out, c, id)
+			var shadow *World
+			forkAt := -1
+			if profile == "genesis" {
+				forkAt = 2 + r.Intn(c.Blocks-2)
 			}
+			for b := 0; b < c.Blocks && !w.Halted; b++ {
+				if b == forkAt {
+					shadow = w.ForkGenesis()
+					h.ForkAt = len(h.Actions)
+				}
+				for _, a := range w.GenBlock(r, c) {
+					h.Actions = append(h.Actions, a)
+					if shadow != nil {
+						w.ExecBoth(shadow, a)
+					} else {
+						w.Exec(a)
+					}
+				}
+			}
+			reportMonitors(out, w)
 		}
-		reportMonitors(out, w)
 		if hist != nil {
 			b, _ := json.Marshal(h)
 			hist.Write(b)
@@ -96,6 +115,63 @@ type History struct {
 	ID      string
 	Config  Config
 	Actions []Action
+	ForkAt  int // C18: index of the action before which the state is exported and re-imported (0 = never)
+}
+
+// runDeterminism (C19): the same history on three sibling branches of one state in
+// one process; traces (results, state dumps, event digests) must be byte-identical.
+func runDeterminism(t *testing.T, out *bufio.Writer, r *rand.Rand, c Config, id string) History {
+	Scale = c.Scale
+	fund := map[int64]string{1: "2000000000000000000000000000000", 2: "2000000000000000000000000000000", 3: "2000000000000000000000000000000", 9: "100000000000"}
+	var bufBase bytes.Buffer
+	base := Setup(t, bufio.NewWriter(&bufBase), c.NVals, c.NUsers, c.StartNs, time.Duration(c.Unbonding), fund)
+	base.HistID = id
+	base.Profile = c.Profile
+	h := History{ID: id, Config: c}
+	var bufs [3]bytes.Buffer
+	var first *World
+	for k := 0; k < 3; k++ {
+		ctx, _ := base.Ctx.CacheContext()
+		w := base.clone(ctx, &bufs[k])
+		w.Start(c)
+		if k == 0 {
+			first = w
+			for b := 0; b < c.Blocks && !w.Halted; b++ {
+				for _, a := range w.GenBlock(r, c) {
+					h.Actions = append(h.Actions, a)
+					w.Exec(a)
+				}
+			}
+		} else {
+			for _, a := range h.Actions {
+				w.Exec(a)
+			}
+		}
+		w.Out.Flush()
+	}
+	for k := 1; k < 3; k++ {
+		if !bytes.Equal(bufs[0].Bytes(), bufs[k].Bytes()) {
+			la := strings.Split(bufs[0].String(), "\n")
+			lb := strings.Split(bufs[k].String(), "\n")
+			tag := "length"
+			for i := 0; i < len(la) && i < len(lb); i++ {
+				if la[i] != lb[i] {
+					f := strings.Fields(la[i])
+					if len(f) > 0 {
+						tag = f[0]
+						if (f[0] == "S" || f[0] == "O") && len(f) > 1 {
+							tag += f[1]
+						}
+					}
+					break
+				}
+			}
+			first.monitor("C19", "replay-on-sibling-branch-differs-first-at-record-"+tag)
+		}
+	}
+	out.Write(bufs[0].Bytes())
+	reportMonitors(out, first)
+	return h
 }
 
 func NewWorld(t *testing.T, out *bufio.Writer, c Config, id string) *World {
@@ -103,14 +179,23 @@ func NewWorld(t *testing.T, out *bufio.Writer, c Config, id string) *World {
 	Scale = c.Scale
 	w := Setup(t, out, c.NVals, c.NUsers, c.StartNs, time.Duration(c.Unbonding), fund)
 	w.HistID = id
+	w.Profile = c.Profile
 	w.Start(c)
 	return w
 }
 
 func RunHistory(t *testing.T, out *bufio.Writer, h History) *World {
 	w := NewWorld(t, out, h.Config, h.ID)
-	for _, a := range h.Actions {
-		w.Exec(a)
+	var shadow *World
+	for i, a := range h.Actions {
+		if h.ForkAt > 0 && i == h.ForkAt {
+			shadow = w.ForkGenesis()
+		}
+		if shadow != nil {
+			w.ExecBoth(shadow, a)
+		} else {
+			w.Exec(a)
+		}
 	}
 	return w
 }
